@@ -26,7 +26,7 @@ CHECKS = {
          "runtime monitor: bookkeeping recount + submit id-set oracle + exactly-once completion"),
  "C14": (SIM, "4, 5/C14", "failure counting per job over the announced events; abort reasons and survivors are checked at the step that crosses the limit",
          "runtime monitor: per-job failure counter automaton over announced events"),
- "C10": ("E4 journal lab", "5/C10", "every record boundary (and random byte offsets inside records) of journals written by the real server inside simulation runs is restored through the real StateRestorer into a fresh server and compared with an independent reference fold; plus simulation runs with crash/restart actions",
+ "C10": ("E4 journal lab", "5/C10", "every record boundary (and random byte offsets inside records) of journals written by the real server inside simulation runs is restored through the real StateRestorer into a fresh server and compared with an independent reference fold; plus simulation runs with crash/restart actions; plus the real init_hq_server restarted on its own journal (also from journals copied mid-run), a real client comparing what it sees of every unfinished job before and after",
          "fault enumeration: restore at every journal record boundary + torn tails, compared with a reference fold"),
  "C11": ("E4 journal lab", "5/C11", "id counters after restore vs. every id mentioned in the journal prefix at every cut (also on pruned journals); ids issued through the real submit/registration paths in simulation runs with chains of restarts; queue ids: random create/remove/restart chains through the real autoalloc state, journal writer, restorer and the re-adding of restored queues; server uid and job ids end to end: the real `init_hq_server` restarted 2-4 times on one journal (with/without a configured uid, from journals copied mid-run) and asked through a real client session",
          "fault enumeration: id high-water-mark oracle at every journal cut + restart chains"),
@@ -93,7 +93,7 @@ manifest = {
    {"name": "E3 allocator lab", "path": "/verif/harness/src/alloc.rs", "serves_properties": ["C04","C16"], "kind_free_text": "real ResourceAllocator under random operation sequences with shadow ledger and brute-force reference"},
    {"name": "E4 journal lab", "path": "/verif/harness/src/journal.rs", "serves_properties": ["C10","C11","C12","C03","C06","C07"], "kind_free_text": "real JournalWriter/Reader, real StateRestorer and real journal thread (prune) on journals produced by E1; every record boundary enumerated"},
    {"name": "E4b queue-id lab", "path": "/verif/harness/src/queueids.rs", "serves_properties": ["C11"], "kind_free_text": "queue create/remove/restart chains through the real autoalloc state, JournalWriter, StateRestorer and the re-adding of restored queues"},
-   {"name": "E9 real-server restart lab", "path": "/verif/harness/src/realserver.rs", "serves_properties": ["C11"], "kind_free_text": "the real init_hq_server (own thread, localhost sockets, real journal thread) restarted on one journal lineage and observed through a real client session; no hook involved"},
+   {"name": "E9 real-server restart lab", "path": "/verif/harness/src/realserver.rs", "serves_properties": ["C11", "C10"], "kind_free_text": "the real init_hq_server (own thread, localhost sockets, real journal thread) restarted on one journal lineage and observed through a real client session; no hook involved"},
    {"name": "E5 autoalloc lab", "path": "/verif/harness/src/autoalloc.rs", "serves_properties": ["C17","C18","C09"], "kind_free_text": "real autoalloc state machine + real scheduler query + simulated batch system (QueueHandler)"},
    {"name": "E6 stream lab", "path": "/verif/harness/src/stream.rs", "serves_properties": ["C19"], "kind_free_text": "real worker-side streamers write random stream directories, real OutputLog reads them back (fd 1 redirected)"},
    {"name": "E7 handshake lab", "path": "/verif/harness/src/auth.rs", "serves_properties": ["C20"], "kind_free_text": "real do_authentication x2 with a man-in-the-middle"},
